@@ -20,7 +20,10 @@ ENGINE = {'name': 'msmall',
          'the hour around every switch x windows whose edges lie half an hour around the local time, the reference and the model taking the offset '
          'in force at the instant; remote_ip/local_ip/not{remote_ip}: 8 range sets x first/last/neighbour addresses of every range, random, mapped, '
          'zoned and unparsable hosts as text addresses, and *net.TCPAddr / *net.UDPAddr values holding IPv4 in 16-byte and 4-byte form, IPv6 and '
-         'zoned addresses. Correspondence cases are the whole stream, the neighbourhood of the first gate and both sides of every verdict '
+         'zoned addresses. Sequence pass: 2n scenarios of 2-5 matchers evaluated one after the other on ONE connection (clock matchers of different zones/windows in '
+         'every order, a clock inside not next to other clocks, remote_ip/local_ip with different range sets, one stream matcher under '
+         'different filters, mixed sequences); every verdict must equal the one on a fresh connection with the same bytes, addresses and wrap '
+         'time, and is also a correspondence case. Correspondence cases are the whole stream, the neighbourhood of the first gate and both sides of every verdict '
          'change. A case is non-trivial when the input reaches past the first magic/length gate of the matcher (clock: a proper window; ip: a '
          'parsable address); distinct = distinct (matcher, configuration, bytes, verdict) terms',
  'trusted_base': ['runtime.MemStats.TotalAlloc deltas are the measure of allocation; the scripted net.Conn counts Read calls',
